@@ -14,6 +14,13 @@
 
 typedef uintptr_t W;
 
+/* heap accounting around the last vf_try call (ASan allocator statistics; exact for a single thread) */
+extern size_t __sanitizer_get_current_allocated_bytes(void) __attribute__((weak));
+static size_t vf_heap_before, vf_heap_after;
+size_t vf_heap_now(void) { return __sanitizer_get_current_allocated_bytes ? __sanitizer_get_current_allocated_bytes() : 0; }
+long long vf_last_heap_delta(void) { return (long long)vf_heap_after - (long long)vf_heap_before; }
+
+
 /* out[0]=handler entered, out[1]=error code seen by handler, out[2]=chain ok inside,
  * out[3]=chain restored after, out[4]=code (sticky) after the call (not consumed) */
 W vf_try(void *fn, int n, W *a, int *out) {
@@ -24,6 +31,7 @@ W vf_try(void *fn, int n, W *a, int *out) {
 	sts_t *before = ctx->last;
 	out[0] = out[1] = 0; out[2] = 1; out[3] = 1; out[4] = 0;
 	if (n < 0 || n > 18) { out[0] = -99; return 0; }
+	vf_heap_before = vf_heap_now();
 	RLC_TRY {
 		switch (n) {
 		case 0: r = ((W(*)(void))fn)(); break;
@@ -52,6 +60,7 @@ W vf_try(void *fn, int n, W *a, int *out) {
 		out[0] = 1;
 		out[1] = (int)e;
 	}
+	vf_heap_after = vf_heap_now();
 	out[2] = inside_ok;
 	out[3] = (core_get()->last == before);
 	out[4] = core_get()->code;
